@@ -317,6 +317,8 @@ class Executor:
         self.executed_fns = set()
         self.fid = itertools.count(1)
         self.fresh = itertools.count(1)
+        self.bounds = {}
+        self._ivmemo = {}
         self._cfg = {}
         self.k_by_fn = {}         # fn name -> unroll bound override
         self.cur_fn = None
@@ -336,7 +338,74 @@ class Executor:
             self.assumes.append(v >= lo)
         if hi is not None:
             self.assumes.append(v <= hi)
+        self.bounds[v.get_id()] = (lo, hi)
         return v
+
+    # ---- interval analysis (sound over-approximation; used only to drop provably redundant wraps)
+    def interval(self, t):
+        memo = self._ivmemo
+        key = t.get_id()
+        r = memo.get(key)
+        if r is not None:
+            return r
+        r = self._interval(t)
+        memo[key] = r
+        return r
+
+    def _interval(self, t):
+        INF = None
+        if z3.is_int_value(t):
+            v = t.as_long()
+            return (v, v)
+        if not z3.is_app(t) or not z3.is_int(t):
+            return (INF, INF)
+        k = t.decl().kind()
+        ch = t.children()
+        if k == z3.Z3_OP_UNINTERPRETED and not ch:
+            return self.bounds.get(t.get_id(), (INF, INF))
+        if k == z3.Z3_OP_ADD:
+            lo, hi = 0, 0
+            for c in ch:
+                l, h = self.interval(c)
+                lo = None if (lo is None or l is None) else lo + l
+                hi = None if (hi is None or h is None) else hi + h
+            return (lo, hi)
+        if k == z3.Z3_OP_SUB and len(ch) == 2:
+            l1, h1 = self.interval(ch[0])
+            l2, h2 = self.interval(ch[1])
+            return (None if (l1 is None or h2 is None) else l1 - h2, None if (h1 is None or l2 is None) else h1 - l2)
+        if k == z3.Z3_OP_UMINUS:
+            l, h = self.interval(ch[0])
+            return (None if h is None else -h, None if l is None else -l)
+        if k == z3.Z3_OP_MUL:
+            lo, hi = 1, 1
+            for c in ch:
+                l, h = self.interval(c)
+                if None in (l, h, lo, hi):
+                    return (INF, INF)
+                cands = [lo * l, lo * h, hi * l, hi * h]
+                lo, hi = min(cands), max(cands)
+            return (lo, hi)
+        if k == z3.Z3_OP_MOD and z3.is_int_value(ch[1]) and ch[1].as_long() > 0:
+            m = ch[1].as_long()
+            l, h = self.interval(ch[0])
+            if l is not None and h is not None and l >= 0 and h < m:
+                return (l, h)
+            return (0, m - 1)
+        if k == z3.Z3_OP_IDIV and z3.is_int_value(ch[1]) and ch[1].as_long() > 0:
+            m = ch[1].as_long()
+            l, h = self.interval(ch[0])
+            return (None if l is None else l // m, None if h is None else h // m)
+        if k == z3.Z3_OP_ITE:
+            l1, h1 = self.interval(ch[1])
+            l2, h2 = self.interval(ch[2])
+            return (None if (l1 is None or l2 is None) else min(l1, l2), None if (h1 is None or h2 is None) else max(h1, h2))
+        return (INF, INF)
+
+    def fits(self, t, ty):
+        l, h = self.interval(t)
+        lo, hi = ty_range(ty)
+        return l is not None and h is not None and l >= lo and h <= hi
 
     def fresh_bool(self, name):
         return z3.Bool("%s!%d" % (name, next(self.fresh)))
@@ -630,6 +699,9 @@ class Executor:
         s, b = int_info(ty)
         if ty == "char":
             return t
+        t = simp(t)
+        if self.fits(t, ty):
+            return t
         m = 1 << b
         if not s:
             return simp(t % m)
@@ -672,7 +744,7 @@ class Executor:
             return VInt(self.wrap(r, ty), ty)
         if op in ("AddWithOverflow", "SubWithOverflow", "MulWithOverflow"):
             r = simp({"A": x + y, "S": x - y, "M": x * y}[op[0]])
-            ov = simp(z3.Not(self.in_range(r, ty)))
+            ov = z3.BoolVal(False) if self.fits(r, ty) else simp(z3.Not(self.in_range(r, ty)))
             return VStruct("(tuple)", [VInt(self.wrap(r, ty), ty), VBool(ov)])
         if op in ("Rem", "Div"):
             s, _ = int_info(ty)
